@@ -68,6 +68,38 @@ impl BuildWorld {
                 if res.is_ok() { "ok".into() } else { "err invalidregion".into() }
             }
             "k.build" => self.build(rec, &kv, line),
+            "k.overlap" => {
+                // two regions over one descriptor (or two), `fds_overlap` against the plain meaning: the file ranges intersect
+                let opt = |k: &str| if kv.s(k) == "none" { None } else { Some(kv.n(k)) };
+                let same = kv.n("same") == 1;
+                let f1 = std::sync::Arc::new(crate::streams::tmpfile_pub());
+                let f2 = if same { f1.clone() } else { std::sync::Arc::new(crate::streams::tmpfile_pub()) };
+                f1.set_len(1 << 20).unwrap();
+                f2.set_len(1 << 20).unwrap();
+                let mk = |f: &std::sync::Arc<std::fs::File>, s: Option<u64>, l: usize| {
+                    let mut b = MmapRegionBuilder::<()>::new(l).with_mmap_prot(libc::PROT_READ);
+                    b = match s {
+                        Some(s) => b.with_file_offset(FileOffset::from_arc(f.clone(), s)).with_mmap_flags(libc::MAP_SHARED | libc::MAP_NORESERVE),
+                        None => b.with_mmap_flags(libc::MAP_ANONYMOUS | libc::MAP_PRIVATE),
+                    };
+                    b.build()
+                };
+                let (s1, s2, l1, l2) = (opt("s1"), opt("s2"), kv.us("l1"), kv.us("l2"));
+                match (mk(&f1, s1, l1), mk(&f2, s2, l2)) {
+                    (Ok(a), Ok(b)) => {
+                        let got = a.fds_overlap(&b);
+                        let want = match (s1, s2) {
+                            (Some(x), Some(y)) if same => x.max(y) < (x + l1 as u64).min(y + l2 as u64),
+                            _ => false,
+                        };
+                        if got != want || b.fds_overlap(&a) != want {
+                            rec.fail("C15", "k.overlap", &format!("{} -> {}", line, got));
+                        }
+                        format!("ok {}", got)
+                    }
+                    _ => "err mmap".into(),
+                }
+            }
             _ => "bad-op".into(),
         }
     }
@@ -76,27 +108,39 @@ impl BuildWorld {
         let (size, prot, flags) = (kv.us("size"), kv.n("prot") as i32, kv.n("flags") as i32);
         let file = if kv.s("flen") == "none" { None } else { Some((kv.n("flen"), kv.n("fstart"))) };
         let raw = if kv.s("raw") == "none" { None } else { Some(kv.us("raw")) };
-        let mut b = MmapRegionBuilder::<()>::new(size).with_mmap_prot(prot).with_mmap_flags(flags);
         let mut keep_file = None;
+        let mut fo: Option<FileOffset> = None;
         if let Some((flen, fstart)) = file {
             if kv.n("reuse") == 1 {
                 self.shared_file.set_len(flen).unwrap();
                 keep_file = Some(self.shared_file.try_clone().unwrap());
                 let sf = self.shared_file.clone();
-                let fo = self.shared_off.entry(fstart).or_insert_with(|| FileOffset::from_arc(sf, fstart)).clone();
-                b = b.with_file_offset(fo);
+                fo = Some(self.shared_off.entry(fstart).or_insert_with(|| FileOffset::from_arc(sf, fstart)).clone());
             } else {
                 let f = crate::streams::tmpfile_pub();
                 f.set_len(flen).unwrap();
                 keep_file = Some(f.try_clone().unwrap());
-                b = b.with_file_offset(FileOffset::new(f, fstart));
+                fo = Some(FileOffset::new(f, fstart));
             }
         }
-        if let Some(off) = raw {
-            b = unsafe { b.with_raw_mmap_pointer(self.ext.wrapping_add(off)) };
-        }
         let before = maps_lines();
-        let res = b.build();
+        // the same request through the builder or through one of the older constructors that wrap it
+        #[allow(deprecated)]
+        let res = match (kv.s("via"), raw, fo.clone()) {
+            ("from_file", None, Some(f)) => MmapRegion::<()>::from_file(f, size),
+            ("build", None, f) => MmapRegion::<()>::build(f, size, prot, flags),
+            ("build_raw", Some(off), None) => unsafe { MmapRegion::<()>::build_raw(self.ext.wrapping_add(off), size, prot, flags) },
+            _ => {
+                let mut b = MmapRegionBuilder::<()>::new(size).with_mmap_prot(prot).with_mmap_flags(flags);
+                if let Some(f) = fo.clone() {
+                    b = b.with_file_offset(f);
+                }
+                if let Some(off) = raw {
+                    b = unsafe { b.with_raw_mmap_pointer(self.ext.wrapping_add(off)) };
+                }
+                b.build()
+            }
+        };
         let after = maps_lines();
         // ---- oracle: the acceptance predicate written directly
         let fixed = flags & libc::MAP_FIXED != 0;
@@ -175,6 +219,12 @@ pub fn run(rec: &mut Rec, rng: &mut Rng, n: usize) {
     rec.cases += 1;
     for _ in 0..n {
         let r = rng.below(100);
+        if r >= 96 {
+            let pick = |rng: &mut Rng| if rng.chance(1, 8) { "none".to_string() } else { (4096 * rng.below(6)).to_string() };
+            let line = format!("k.overlap s1={} l1={} s2={} l2={} same={}", pick(rng), 1 + rng.below(3 * 4096), pick(rng), 1 + rng.below(3 * 4096), rng.chance(3, 4) as u8);
+            go(&mut w, rec, line);
+            continue;
+        }
         if r < 12 {
             let size = *rng.pick(&[1u64, 4096, 5000, 1 << 30, u64::MAX, u64::MAX - 4095, 1 << 63]);
             let base = if rng.chance(1, 2) { (u64::MAX - size.min(u64::MAX - 1)).wrapping_add(rng.below(4)).wrapping_sub(2) } else { rng.boundary(&[1 << 32]) };
@@ -199,6 +249,14 @@ pub fn run(rec: &mut Rec, rng: &mut Rng, n: usize) {
         }
         // a third of the file-backed requests go through the long-lived file, whose length keeps changing
         let reuse = (flen != "none" && rng.chance(1, 3)) as u8;
-        go(&mut w, rec, format!("k.build size={} prot={} flags={} flen={} fstart={} raw={} page=4096 reuse={}", size, prot, flags, flen, fstart, raw, reuse));
+        // a third of the requests go through the older constructors (`from_file` fixes prot and flags)
+        let (mut prot, mut flags) = (prot, flags);
+        let via = match rng.below(6) {
+            0 if raw == "none" => "build",
+            1 if raw != "none" && flen == "none" => "build_raw",
+            2 if raw == "none" && flen != "none" => { prot = rw; flags = (libc::MAP_NORESERVE | libc::MAP_SHARED) as u64; "from_file" }
+            _ => "builder",
+        };
+        go(&mut w, rec, format!("k.build size={} prot={} flags={} flen={} fstart={} raw={} page=4096 reuse={} via={}", size, prot, flags, flen, fstart, raw, reuse, via));
     }
 }
